@@ -1090,10 +1090,19 @@ class Native:
         self.start_objs = {}
 
     def sh(self, cmd, timeout=20):
+        # own process group: on a timeout the compiled program (a grandchild of the shell) is killed too,
+        # a miscompiled loop must not survive the check
+        p = subprocess.Popen(cmd, shell=True, cwd=self.dir, stdout=subprocess.PIPE, stderr=subprocess.DEVNULL,
+                             start_new_session=True)
         try:
-            p = subprocess.run(cmd, shell=True, cwd=self.dir, stdout=subprocess.PIPE, stderr=subprocess.DEVNULL, timeout=timeout)
-            return (p.returncode, p.stdout.decode('latin1'))
+            out, _ = p.communicate(timeout=timeout)
+            return (p.returncode, out.decode('latin1'))
         except subprocess.TimeoutExpired:
+            try:
+                os.killpg(p.pid, 9)
+            except OSError:
+                pass
+            p.communicate()
             return ('timeout', '')
 
     def reference(self, src):
@@ -1138,10 +1147,16 @@ logging.disable(logging.CRITICAL)
 wd, opt, link = sys.argv[1], sys.argv[2], sys.argv[3]
 opt = int(opt) if opt.isdigit() else opt
 def sh(cmd):
+    p = subprocess.Popen(cmd, shell=True, cwd=wd, stdout=subprocess.PIPE, stderr=subprocess.DEVNULL, start_new_session=True)
     try:
-        p = subprocess.run(cmd, shell=True, cwd=wd, stdout=subprocess.PIPE, stderr=subprocess.DEVNULL, timeout=20)
-        return [p.returncode, p.stdout.decode('latin1')]
+        out, _ = p.communicate(timeout=20)
+        return [p.returncode, out.decode('latin1')]
     except subprocess.TimeoutExpired:
+        try:
+            os.killpg(p.pid, 9)
+        except OSError:
+            pass
+        p.communicate()
         return ['timeout', '']
 try:
     from ppci import api
